@@ -668,6 +668,10 @@ func (u *URI) RequestURI() []byte {
 	var dst []byte
 	if u.DisablePathNormalizing {
 		dst = append(u.requestURI[:0], u.PathOriginal()...)
+		if len(dst) == 0 {
+			// no path at all: the request target still starts with a slash
+			dst = append(dst, '/')
+		}
 	} else {
 		dst = bytesconv.AppendQuotedPath(u.requestURI[:0], u.Path())
 	}
